@@ -15,6 +15,9 @@ macro_rules! push_unchecked {
     ($buf:ident <- $bytes:expr) => {
         {
             let (buf_len, bytes_len) = ($buf.len(), $bytes.len());
+            #[cfg(feature="ohkami_verif")] {
+                assert!(buf_len + bytes_len <= $buf.capacity(), "push_unchecked!: {buf_len} + {bytes_len} > {}", $buf.capacity());
+            }
             std::ptr::copy_nonoverlapping(
                 $bytes.as_ptr(),
                 $buf.as_mut_ptr().add(buf_len),
